@@ -274,8 +274,10 @@ struct Death {
     how: &'static str,
 }
 
-/// Run one process to completion, collecting "K" lines; returns (last K, finished cleanly).
-fn run_pinpoint(prop: &str, tier: Tier, seed: u64, phase: &str, unit: u64, timeout: Duration) -> (Option<u64>, bool, &'static str) {
+/// Run one process to completion, collecting "K" lines. Returns (culprit case, finished cleanly, how):
+/// the last case announced if the process died or stalled; if it finished, the case that took
+/// longest, provided it took more than `slow` (a worker stalled on this unit before).
+fn run_pinpoint(prop: &str, tier: Tier, seed: u64, phase: &str, unit: u64, timeout: Duration, slow: Duration) -> (Option<u64>, bool, &'static str) {
     let args: Vec<String> = vec!["pinpoint".into(), prop.into(), tier.name().into(), seed.to_string(), phase.into(), unit.to_string()];
     let Ok(mut child) = spawn_self(&args) else { return (None, false, "spawn") };
     let stdout = child.stdout.take().unwrap();
@@ -289,14 +291,27 @@ fn run_pinpoint(prop: &str, tier: Tier, seed: u64, phase: &str, unit: u64, timeo
         let _ = tx.send(None);
     });
     let mut last: Option<u64> = None;
+    let mut last_at = Instant::now();
+    let mut slowest: Option<(u64, Duration)> = None;
     let mut done = false;
     let mut how = "abort";
+    let mut note = |last: Option<u64>, last_at: Instant, slowest: &mut Option<(u64, Duration)>| {
+        if let Some(c) = last {
+            let d = last_at.elapsed();
+            if slowest.map(|(_, s)| d > s).unwrap_or(true) {
+                *slowest = Some((c, d));
+            }
+        }
+    };
     loop {
         match rx.recv_timeout(timeout) {
             Ok(Some(l)) => {
                 if let Some(k) = l.strip_prefix("K ") {
+                    note(last, last_at, &mut slowest);
                     last = k.trim().parse().ok();
+                    last_at = Instant::now();
                 } else if l == "DONE" {
+                    note(last, last_at, &mut slowest);
                     done = true;
                 }
             }
@@ -309,6 +324,14 @@ fn run_pinpoint(prop: &str, tier: Tier, seed: u64, phase: &str, unit: u64, timeo
         }
     }
     let _ = child.wait();
+    if done {
+        if let Some((c, d)) = slowest {
+            if d > slow {
+                return (Some(c), false, "hang");
+            }
+        }
+        return (last, true, how);
+    }
     (last, done, how)
 }
 
@@ -388,7 +411,7 @@ pub fn cmd_check(prop: &str, tier: Tier, seed: u64, workers: u64) -> i32 {
     let mut deaths: Vec<Death> = Vec::new();
     let mut found: Vec<Found> = Vec::new();
     let mut respawns = 0;
-    let stall = Duration::from_secs(std::env::var("SHPSIM_STALL_S").ok().and_then(|s| s.parse().ok()).unwrap_or(180));
+    let stall = Duration::from_secs(std::env::var("SHPSIM_STALL_S").ok().and_then(|s| s.parse().ok()).unwrap_or(90));
     while finished.iter().any(|c| !c) {
         match rx.recv_timeout(Duration::from_secs(1)) {
             Ok(Msg::Unit(w, ph, u)) => {
@@ -468,7 +491,7 @@ pub fn cmd_check(prop: &str, tier: Tier, seed: u64, workers: u64) -> i32 {
     deaths.sort_by_key(|d| (d.phase.clone(), d.unit));
     for d in deaths.iter().take(3) {
         println!("worker died ({}) in phase {} unit {}: pinpointing", d.how, d.phase, d.unit);
-        let (last, done, how) = run_pinpoint(prop, tier, seed, &d.phase, d.unit, Duration::from_secs(30));
+        let (last, done, how) = run_pinpoint(prop, tier, seed, &d.phase, d.unit, Duration::from_secs(30), Duration::from_secs(if d.how == "hang" { 4 } else { 3600 }));
         if done {
             eprintln!("harness error: unit {}/{} killed a worker but completes in isolation", d.phase, d.unit);
             return 2;
@@ -494,7 +517,7 @@ pub fn cmd_check(prop: &str, tier: Tier, seed: u64, workers: u64) -> i32 {
                 prop: prop.to_string(),
                 clause: how.to_string(),
                 site: "process".into(),
-                detail: format!("the process executing this case {}", if how == "hang" { "made no progress for 30 s" } else { "died on a signal (abort / out of memory)" }),
+                detail: format!("the process executing this case {}", if how == "hang" { "made no progress for 30 s, or took more than 4 s in a unit on which a worker had stalled for minutes" } else { "died on a signal (abort / out of memory)" }),
             }],
         });
     }
@@ -718,6 +741,7 @@ pub fn cmd_replay(path: &Path) -> i32 {
         }
     });
     let mut fails: Option<Vec<Fail>> = None;
+    let started = Instant::now();
     let deadline = Instant::now() + Duration::from_secs(60);
     let mut hung = false;
     loop {
@@ -738,6 +762,11 @@ pub fn cmd_replay(path: &Path) -> i32 {
         }
     }
     let _ = child.wait();
+    // a "hang" finding is a case that takes out of proportion long: reproduced iff it still does
+    if rf.clause == "hang" && !hung && started.elapsed() > Duration::from_secs(4) {
+        hung = true;
+        fails = None;
+    }
     let fails = match fails {
         Some(f) => f,
         None => vec![Fail {
